@@ -118,10 +118,13 @@ CurLeg(c) == M!LegsR(conns[c].cur[1])[conns[c].cur[2]]
 \* the connections in dial order: the model's connection takes the number of the first coming dial (from the
 \* current line on) to a broker of its group that no earlier decision has taken.
 Window == l .. (IF Len(Trace) < l + 150 THEN Len(Trace) ELSE l + 150)
-DialFor(g) ==
+\* (several decisions for the same group may be pending: their dials can come in either order)
+DialsFor(g) ==
   LET K == { k \in Window : /\ Trace[k].ev = "dial" /\ Trace[k].ok /\ conns[Trace[k].conn].st = "none"
-                            /\ IF g = 0 THEN Trace[k].broker \in cf.boot ELSE Trace[k].broker = g } IN
-  IF K = {} THEN 0 ELSE CHOOSE k \in K : \A j \in K : k <= j
+                            /\ IF g = 0 THEN Trace[k].broker \in cf.boot ELSE Trace[k].broker = g }
+      first == IF K = {} THEN 0 ELSE CHOOSE k \in K : \A j \in K : k <= j IN
+  \* the first one, and any other that follows it before the first one's connection is used
+  { k \in K : k <= first + 12 }
 Refused(g) ==
   \E k \in Window : Trace[k].ev = "dial" /\ ~Trace[k].ok /\ (IF g = 0 THEN Trace[k].broker \in cf.boot ELSE Trace[k].broker = g)
 
@@ -256,8 +259,8 @@ Floating ==
                         \/ (rq[r].cancelled = "no" /\ PlanOf(r).deadlineMs > 0 /\ M!Cancel(r, "deadline"))
                         \/ \E i \in Legs : \/ M!RouteFail(r, i)
                                            \/ \E c \in DOMAIN dialTo : (M!RouteGrab(r, i, c) /\ NextApi(c) = rq[r].legs[i].api)
-                                           \/ (/\ M!CanRoute(r, i) /\ M!Dest(r, i) >= 0 /\ DialFor(M!Dest(r, i)) # 0
-                                               /\ M!RouteConnect(r, i, Trace[DialFor(M!Dest(r, i))].conn))
+                                           \/ (/\ M!CanRoute(r, i) /\ M!Dest(r, i) >= 0
+                                               /\ \E k \in DialsFor(M!Dest(r, i)) : M!RouteConnect(r, i, Trace[k].conn))
                                            \/ (/\ M!CanRoute(r, i) /\ M!Dest(r, i) >= 0 /\ Refused(M!Dest(r, i))
                                                /\ M!RouteConnectRefused(r, i))
   \/ \E c \in DOMAIN dialTo :
@@ -266,7 +269,7 @@ Floating ==
        \/ (M!DiscGrab(c) /\ NextApi(c) = "Metadata")
        \/ (/\ c \in replied /\ M!ConnectDone(c, dialTo[c])
            /\ conns'[c].st = "busy" => NextApi(c) = M!LegsR(conns'[c].cur[1])[conns'[c].cur[2]].api)
-  \/ (DialFor(0) # 0 /\ M!DiscConnect(Trace[DialFor(0)].conn))
+  \/ (\E k \in DialsFor(0) : M!DiscConnect(Trace[k].conn))
   \/ (Refused(0) /\ M!DiscConnectRefused)
 
 SilentFrame ==
